@@ -182,7 +182,9 @@ def steps_of(fn, limit):
 def budget_for(nbytes, nsig):
     # linear in the data for a given signature: splitting a signature of length n <= 255 costs up to ~n^2 interpreted lines
     # (bracket matching per nesting level) and is repeated per decoded element, so the constant is quadratic in n
-    return 4000 + 50 * (nsig + 1) ** 2 * (1 + nbytes)
+    # splitting once: O(n^2) for nesting depth ~n; per decoded value another split of its element signature: O(n) amortised
+    # for sequences, so the data term carries a factor n, not n^2 (measured on the unchanged tree with a margin of > 3x)
+    return 4000 + 60 * (nsig + 1) ** 2 + (400 + 40 * nsig) * nbytes
 
 
 def valid_messages(rnd):
@@ -198,7 +200,7 @@ def valid_messages(rnd):
     return out
 
 
-HOSTILE_SIGS = ['ab', 'ay', 'ai', 'ax', 'ad', 'as', 'ao', 'ag', 'ah', 'a(b)', 'a(yb)', 'a{bb}', 'aab', 'av', 'a()', 'a{}', 'a(a())', 'aa()', 'a' * 254 + 'i', '(' * 120 + 'i' + ')' * 120, '(' * 200, 'a{' * 60, '((((', '))))', 'a', 'aa', 'a{s', 'a(i',
+HOSTILE_SIGS = ['ai' * 16, 'ai' * 30, '(' + 'ay' * 40 + ')', 'a(' + 'ai' * 20 + ')', 'ab', 'ay', 'ai', 'ax', 'ad', 'as', 'ao', 'ag', 'ah', 'a(b)', 'a(yb)', 'a{bb}', 'aab', 'av', 'a()', 'a{}', 'a(a())', 'aa()', 'a' * 254 + 'i', '(' * 120 + 'i' + ')' * 120, '(' * 200, 'a{' * 60, '((((', '))))', 'a', 'aa', 'a{s', 'a(i',
                 '{ss}', 'v' * 200, 'a(' + 'i' * 250 + ')', 'z', 'a~', '()', 'a(v)', 'av', 'a{vv}', 'a{sa{sa{sv}}}', '\x00', 'ai(', 'a)', 'a}']
 
 
